@@ -19,3 +19,8 @@ if [ "$what" = all ] || [ "$what" = vsched ]; then
   python3 tools/mksched.py > .work/sched.json
   go build -tags "verif vsched" -overlay .work/sched.json -o bin/vsched ./cmd/vsched
 fi
+if [ "$what" = all ] || [ "$what" = vsched ] || [ "$what" = vrace ]; then
+  # race pass of C08: plain build of /repo's working tree with the race detector
+  python3 overlay/mkoverlay.py > .work/overlay.json
+  go build -race -tags "verif vrace" -overlay .work/overlay.json -o bin/vrace ./cmd/vrace
+fi
